@@ -4,10 +4,18 @@ from mc import core, det
 PROPERTY = 'C15'
 ENGINE = 'E1 exhaustive enumeration of the whole domain {0,1}^n for small n (bijection check), bounded enumeration of widths/lengths beyond'
 LEVEL = 'model_checking'
+DIRECTED_ADDITIONS = 'non-default round counts and 13 digests (small widths exhaustively, 11 wide widths), 20 keys through one object, operator-built messages, four-byte Luby-Rackoff slices, LR lengths 96..4096, bytes-like arguments, objects alive at once and their copies'      # members added during the seeded-change campaign (DESIGN 7); counted under their own vacuity counters
+
 WIDE = list(range(13, 41)) + [159, 160, 161, 319, 320, 321, 2047, 2100]
 
 
 def describe(tier):
+    d = _describe(tier)
+    d['rule'] = d['rule'] + ' Directed additions: ' + DIRECTED_ADDITIONS + '.'
+    return d
+
+
+def _describe(tier):
     nmax = 12 if tier == 'quick' else 13
     return {
         'rule': 'BitwiseFFX: for every n in 2..%d and 3 DRBG keys, ALL 2^n inputs: image == {0,1}^n (bijection), every output has length n, '
